@@ -311,6 +311,16 @@ def main(argv):
     res = C.pool_map(shard, jobs)
     n = ob.n + sum(r[0] for r in res)
     bad = ob.bad + [b for r in res for b in r[1]]
+    # bounded part: result dimension / coordinate system / flavor of every method on the NumPy and Awkward backends against the object
+    # backend (the Engine D lattice of C03; only its class obligations, tagged C05, belong here)
+    from .. import engined as E
+    u_, b_ = E.lattice(C.tier(), C.seed())
+    rd = C.pool_map(E.unary_shard, u_) + C.pool_map(E.binary_shard, b_)
+    arr_bad = [(oid.replace("C05/", "C05/array-lattice/", 1), d) for r in rd for p_, oid, d in r[1] if p_ == "C05"]
+    n_arr = sum(r[2].get("C05", 0) for r in rd)
+    n += len(arr_bad)          # passing bounded evaluations are reported separately and never counted as discharged obligations
+    bad += arr_bad
+    arr_ids = {oid for oid, _ in arr_bad}
     groups = {}
     for oid, detail in bad:
         groups.setdefault(oid.split("[")[0], []).append((oid, detail))
@@ -325,13 +335,15 @@ def main(argv):
             nviol += len(items)
             report.violation(oid, dict(kind="object-backend-symbolic-evaluation", obligation_group=gname, failing_lattice_points=len(items),
                                        first=dict(obligation=oid, detail=detail), others=[o for o, _ in items[1:6]],
-                                       replay_handler="vv.props.c05:replay"), has_input=True)
+                                       replay_handler="vv.props.engined_prop:replay" if oid in arr_ids else "vv.props.c05:replay"), has_input=True)
     level = "proof" if not bad and not report.errors else "other"
     coverage = dict(obligations=n - nknown, discharged=n - len(bad), obligations_posed=n, known_findings=nknown, violations=nviol,
                     by_backend={"term identity on symbolic evaluation of the real object backend": n - len(bad)},
                     table_entries=nkeys, lattice_shards=len(jobs), exhaustive=True,
                     backend_pairing_lattice=dict(obligations=n_backend, label="run-time evaluation of the class rules on concrete tiny operands: object, NumPy (shape (2,)), "
                                                  "Awkward array (2 lists of 1), Awkward record; x flavors x dimensions x {add, subtract, cross, boost_p4, rotate_axis}"),
+                    array_backend_class_lattice=dict(evaluations=n_arr, failed=len(arr_bad), label="BOUNDED run-time contracts (not counted in `obligations`; a failure is reported as a violation): result coordinate system and flavor of every "
+                                                     "method on NumPy / Awkward operands equal those of the object-backend result, over the Engine D lattice of C03 (layouts, pairings)"),
                     checker_cmd=f"./check C05 --tier {C.tier()}",
                     trusted_base=["parametricity of the object backend in its coordinate values (a token cannot be inspected without raising)",
                                   "NumPy's __array_ufunc__ / operator protocol delivers v+w, numpy.sqrt(v), ... to VectorObject.__array_ufunc__",
